@@ -217,13 +217,44 @@ Proof.
   - intros s Hv. unfold import_export, gen_state. destruct (i_suite s); [|reflexivity]. rewrite Hv. reflexivity.
 Qed.
 
+(* ------------------------------------------------------------------ nothing to resume before the keys are on *)
+
+(* A state with local epoch 0 or without a master secret - what a VerifyConnection callback is
+   handed, or a corruption of the epoch - is refused by the import (ErrHandshakeInProgress): no
+   resumed connection ever counts as established while it would write in epoch 0.  UnmarshalBinary
+   does not look at this; the refusal is generateInternalState's. *)
+Theorem pre_keys_refused :
+  (forall p, p_local_epoch p = 0 \/ p_master p = [] -> gen_internal p = None) /\
+  (forall s, i_local_epoch s = 0 \/ i_master s = [] -> import_export s = None) /\
+  (forall p x, gen_internal p = Some x -> i_local_epoch x <> 0 /\ i_master x <> []) /\
+  (exists z p, s_local_epoch z = 0 /\ unmarshal z = Some p /\ gen_internal p = None).
+Proof.
+  split; [|split; [|split]].
+  - intros p H. unfold gen_internal. destruct (p_suite p =? 0); [reflexivity|].
+    destruct (p_version p =? v13); [reflexivity|].
+    assert (E : pre_keys p = true).
+    { unfold pre_keys. destruct H as [H|H]; rewrite H; [reflexivity|apply orb_true_r]. }
+    rewrite E. reflexivity.
+  - intros s H. destruct (import_export s) as [s'|] eqn:E; [|reflexivity].
+    assert (He : exportable s) by (apply import_export_defined_iff; eauto).
+    destruct He as [_ [_ [_ [He0 Hm]]]]. destruct H; contradiction.
+  - intros p x H. unfold gen_internal in H. destruct (p_suite p =? 0); [discriminate|].
+    destruct (p_version p =? v13); [discriminate|].
+    destruct (pre_keys p) eqn:E; [discriminate|].
+    destruct (negb (suite_known (p_suite p))); [discriminate|]. injection H as <-. cbn.
+    unfold pre_keys in E. apply orb_false_elim in E. destruct E as [E1 E2].
+    split; [apply N.eqb_neq; exact E1|]. destruct (p_master p); [discriminate|discriminate].
+  - exists (mkS v12 0 0 [1] [2] 168 [] 2 0 [] [] [] [] [] [] false false []).
+    eexists. repeat split.
+Qed.
+
 (* the refusal looks at the version FIELD only: serialised bytes that say "1.2" (or anything
    else than 1.3) and carry a DTLS 1.3 suite id are decoded and resumed *)
 Theorem v13_suite_with_v12_label_accepted : exists z p x,
   s_version z = v12 /\ s_suite z = 4865 /\ unmarshal z = Some p /\ gen_internal p = Some x /\
   key_inputs x = None.
 Proof.
-  exists (mkS v12 1 1 [] [] 4865 [] 0 0 [] [] [] [] [] [] false true []).
+  exists (mkS v12 1 1 [] [] 4865 [3] 0 0 [] [] [] [] [] [] false true []).
   eexists. eexists. repeat split.
 Qed.
 
@@ -264,7 +295,7 @@ Section ExporterSound.
   Proof.
     intros H label n. assert (He : exportable s) by (apply import_export_defined_iff; eauto).
     destruct (exportable_import s He) as [id [Hs [Hk H']]]. rewrite H in H'. injection H' as ->.
-    destruct He as [_ [Hv Hl]]. now apply conn_exporter_imported.
+    destruct He as [_ [Hv [Hl _]]]. now apply conn_exporter_imported.
   Qed.
 
   (* the decoded State object exports what the original State object exports *)
@@ -490,7 +521,7 @@ Theorem seq_other_epochs_restart : exists pre s s',
   In (0, 0) (emitted [] pre) /\ In (0, 0) (emitted (i_local_seq s') [0]).
 Proof.
   exists [0; 0; 1].
-  exists (mkI v12 1 1 [] [] [] (counters_after [] [0; 0; 1]) [] [] (Some 168) 0 [] [] [] false true [] [] [] []
+  exists (mkI v12 1 1 [] [] [3] (counters_after [] [0; 0; 1]) [] [] (Some 168) 0 [] [] [] false true [] [] [] []
               false (false, false) false (0, 0)).
   eexists. split; [reflexivity|]. split; [vm_compute; reflexivity|]. split; vm_compute; auto.
 Qed.
